@@ -16,21 +16,21 @@ def _check(pid, text, note, technique, design_ref):
 CHECKS = [
     _check(
         "C14",
-        "Seeded search over schedules of (creation order, simulator-assigned object identities incl. address reuse, SymPy cache evictions between and inside constructor calls, injected interrupts at seam calls, counter jumps, evaluation mode, display-name collisions, hash seed, cache size) x generated vector expressions (incl. templates of the shapes the rewrite rules target, functions with declared signatures / literal-zero arguments / several argument tuples, sqrt coefficients), plus long sessions of thousands of small products and deterministic thread interleavings (real threads, baton passing, settrace pre-emption points); every auto-evaluated, doit-evaluated and differentiated result is compared with a 60-digit reference evaluation of the model expression at two rational points; RecursionError under a fixed recursion limit is a termination violation (exceeding the logical step budget is only inconclusive); reference and library output are evaluated at 60 and 120 digits so that rounding is never mistaken for a wrong value. Sampling, not proof: a clean batch is evidence that no rewrite rule reachable by the generator is unsound under the identity orders and eviction points drawn.",
+        "Seeded search over schedules of (creation order, simulator-assigned object identities incl. address reuse, SymPy cache evictions between and inside constructor calls, injected interrupts at seam calls, counter jumps, evaluation mode, display-name collisions, hash seed, cache size, SymPy cache switched off for the whole process) x generated vector expressions (incl. templates of the shapes the rewrite rules target, functions with declared signatures / literal-zero arguments / several argument tuples, sqrt coefficients), plus long sessions of thousands of small products and deterministic thread interleavings (real threads, baton passing, settrace pre-emption points); every auto-evaluated, doit-evaluated and differentiated result is compared with a 60-digit reference evaluation of the model expression at two rational points; RecursionError under a fixed recursion limit is a termination violation (exceeding the logical step budget is only inconclusive); reference and library output are evaluated at 60 and 120 digits so that rounding is never mistaken for a wrong value. Sampling, not proof: a clean batch is evidence that no rewrite rule reachable by the generator is unsound under the identity orders and eviction points drawn.",
         "Trusted: mpmath, SymPy core arithmetic/diff on plain polynomials (oracle side), CPython fork. Virtual identities replace id() inside the vectors module only; address reuse after GC is not modelled. clear_cache() stands for LRU eviction.",
         "deterministic simulation: seeded schedule + fault (cache eviction / identity order) search with reference-model oracle, ddmin-minimised replay files",
         "DESIGN.md section 5",
     ),
     _check(
         "C03",
-        "Every one of the 694 catalogue modules is observed under the canonical history and under six digit-boundary counter placements inside its own allocation (systematic part), every package is imported and observed in one seeded order and in its reverse (every ordered pair inside a package), the whole catalogue is imported in two orders, every module is re-observed after the user created objects of their own (wrappers, functions, quantities, indexed symbols, points) and churned temporary dimensions; then a seeded search over histories (real imports in random order incl. dependents-first, real creations incl. in another thread, forward counter jumps to L*10^d-j for SYM/FUN/QTY, cache evictions, calculate_* use with equal/nearby arguments, arguments created long before use, printing of equations, documentation pages generated or failing before use, 4 zygote configurations of hash seed x cache size) observes 1-3 target modules per run. Oracle: import succeeds; numeric meaning fingerprints of every published equation, symbol metadata and every returning calculate_* outcome equal those of the same tree under the canonical history. Sampling over histories, exhaustive over modules for the systematic placements.",
+        "Every one of the 694 catalogue modules is observed under the canonical history and under six digit-boundary counter placements inside its own allocation (systematic part), every package is imported and observed in one seeded order and in its reverse (every ordered pair inside a package), the whole catalogue is imported in two orders, every module is re-observed after the user created objects of their own (wrappers, functions, quantities, indexed symbols, points) and churned temporary dimensions; then a seeded search over histories (real imports in random order incl. dependents-first, real creations incl. in another thread, forward counter jumps to L*10^d-j for SYM/FUN/QTY, cache evictions, calculate_* use with equal/nearby arguments, arguments created long before use, printing of equations, documentation pages generated or failing (once or twice in a row, recovery by assignment or through reset_sympy_evaluation()) before use, 4 zygote configurations of hash seed x cache size) observes 1-3 target modules per run. Oracle: import succeeds; numeric meaning fingerprints of every published equation, symbol metadata and every returning calculate_* outcome equal those of the same tree under the canonical history. Sampling over histories, exhaustive over modules for the systematic placements.",
         "Self-differential: the reference is the same tree in a fresh process; a behaviour that is wrong in every history is invisible except for import failure. Jump == bulk creation is sample-tested. Trusted: CPython import/fork, SymPy N/subs/doit inside the fingerprint.",
         "deterministic simulation: seeded history (import order / counter state / cache eviction) search against the canonical-history run of the same code, ddmin-minimised replay files",
         "DESIGN.md section 3",
     ),
     _check(
         "C09",
-        "Seeded search over creation/clone sequences (5-60 ops; display names from a small colliding pool incl. names that look like internal ones; all clone helpers; coordinate systems, transforms and rotations; quantities incl. copies and dimension overrides; symbolic wrappers; experimental vector symbols/functions that mint from the same counters; creation by keyword and in another thread) interleaved with perturbations (forward counter jumps to digit boundaries, real bulk creation up to 9000, cache eviction, dropping objects + gc so addresses are reused, churn of short-lived sources, creation while the evaluate flag is off, catalogue imports, a failing documentation page). After every step: pairwise distinctness, unique generated names, every earlier object reads back its names/dimension/assumptions/scale factor (durability), clone contract against a reference model; at the end: independence under subs/diff/solve on a prime-weighted sum judged numerically, abs() of quantities, SI registry vs attributes, print_expression/code_str (bare, in lists, in indexed sums/products, inside wrappers, after doit/simplify rebuilt the expression, after the original was dropped) show display names and no generated name, LaTeX names stay put. Sampling, not proof.",
+        "Seeded search over creation/clone sequences (5-60 ops; display names from a small colliding pool incl. names that look like internal ones; all clone helpers; coordinate systems, transforms and rotations; quantities incl. copies and dimension overrides; symbolic wrappers; experimental vector symbols/functions that mint from the same counters; creation by keyword and in another thread; 12 % of the runs in a process started with SYMPY_USE_CACHE=no) interleaved with perturbations (forward counter jumps to digit boundaries, real bulk creation up to 9000, cache eviction, dropping objects + gc so addresses are reused, churn of short-lived sources, creation while the evaluate flag is off, catalogue imports, a failing documentation page). After every step: pairwise distinctness, unique generated names, every earlier object reads back its names/dimension/assumptions/scale factor (durability), clone contract against a reference model; at the end: independence under subs/diff/solve on a prime-weighted sum judged numerically, abs() of quantities, SI registry vs attributes, print_expression/code_str (bare, in lists, in indexed sums/products, inside wrappers, after doit/simplify rebuilt the expression, after the original was dropped) show display names and no generated name, LaTeX names stay put. Sampling, not proof.",
         "Reference model (expected names/assumptions) is hand-written (about 60 lines); expected assumptions come from plain sympy.Symbol with the same kwargs. Quantities are valued by their scale factor (SymPy may relate quantities of one dimension). Trusted: SymPy subs/diff/solve on linear sums.",
         "deterministic simulation: seeded operation + perturbation sequences checked step by step against an abstract-identity reference model, ddmin-minimised replay files",
         "DESIGN.md section 4",
